@@ -13,7 +13,7 @@
 #include <string.h>
 #include <stdio.h>
 
-#define VF_NIN 96
+#define VF_NIN 320
 extern unsigned long VF_IN[VF_NIN];
 
 #ifdef VF_CBMC
